@@ -12,9 +12,15 @@ namespace Compass
 
 class Lit (α : Type) where
   lit : Nat → Nat → α
+  /-- `x < +∞` in the number type's own terms — the test the code makes when it compares a value
+  with `Cost::INFINITY` (`f64::INFINITY`): in an ordered field every number passes (the default, and
+  the law `LawfulLit.belowInf_eq`); at `Float` it is the IEEE comparison, false of `+∞` and of NaN.
+  (Not expressible through `lit`: `1/0` is `+∞` at `Float` but `0` in a field.) -/
+  belowInf : α → Bool := fun _ => true
 
 instance : Lit Float where
   lit n d := Float.ofNat n / Float.ofNat d
+  belowInf x := decide (x < Float.ofNat 1 / Float.ofNat 0)
 
 /-- conversion factor as it appears in the Rust source: identity, `* n/d`, or `/ (n/d)` -/
 inductive Factor where
